@@ -34,7 +34,11 @@ def _cmp_term(got: Rec, want_coefs: Dict[str, Rat], want_const: Rat) -> Optional
 
 
 def _run(ctx: Ctx, rule: str, fkey: str, construct: str, thunk) -> None:
-    fi = ctx.prog.func(fkey)
+    fi = ctx.prog.funcs.get(fkey)
+    if fi is None:
+        fi = next((lf for lf in ctx.prog.lambdas if lf.key == fkey), None)
+    if fi is None:
+        fi = ctx.prog.func(fkey)
     try:
         problem = thunk()
     except Undecidable as e:
